@@ -188,12 +188,12 @@ impl Scenario for C25Scn {
             .collect();
         let sched = SchedCfg::generate(rng, &["signals", "socket reader", "obj_server_task"]);
         let mut with = with;
-        let cancel_last = if !ops.is_empty() && matches!(ops[ops.len() - 1], Op::At(..) | Op::Remove(..)) && rng.chance(1, 4) {
+        let cancel_last = if !ops.is_empty() && matches!(ops[ops.len() - 1], Op::At(..) | Op::Remove(..)) && rng.chance(1, 2) {
             let last = ops.len() - 1;
             if with.len() > last {
                 with[last] = None;
             }
-            Some(rng.below(6) as u32)
+            Some(rng.below(3) as u32)
         } else {
             None
         };
